@@ -72,7 +72,7 @@ CHECKS = {
     ),
     "C15": dict(
         category="model_checking",
-        text="Every sequence of <= 3 run calls with lengths in {0,1,2,3} and every assignment of run/srun/irun(fully iterated) to the calls is executed on real Canonical, GrandCanonical and ForceBias simulations (real PCG64, fixed seeds) carrying six recording observers (intervals 1,2,3,-1,-2,-4), a logger and a trajectory. Each history is compared (a) with a reference model of the observer schedule, header and per-call step counts and (b) differentially - atoms bitwise, step counter, log text, trajectory text, observer call logs - with a single run(sum).",
+        text="Every sequence of <= 3 run calls with lengths in {0,1,2,3} and every assignment of run/srun/irun(fully iterated) to the calls is executed on real Canonical, GrandCanonical and ForceBias simulations (real PCG64, fixed seeds) carrying six recording observers (intervals 1,2,3,-1,-2,-4), a logger and a trajectory. Each history is compared (a) with a reference model of the observer schedule, header and per-call step counts and (b) differentially - atoms bitwise, step counter, log text, trajectory text, observer call logs - with a single run(sum). Variants: observers attached again under their own names, and replaced by new objects under their own names, between two run calls.",
         design_ref="4-C15",
         note="Observers are independent, so all intervals are attached at once. ForceBias has no srun. FixCom is not combined with the trajectory observer (ASE's extxyz writer fails on it).",
         technique="exhaustive enumeration of run-splitting histories on the implementation against a schedule model and a single-run differential oracle",
@@ -88,7 +88,7 @@ CHECKS = {
         category="exploration",
         text="For every public module of the package (41; thorough adds every ordered pair of top-level sub-packages) a fresh interpreter imports that module first, then the rest of the package, then round-trips (to_dict -> ASE JSON -> class looked up by registered name -> from_dict -> to_dict) every concrete serializable class found by pkgutil/inspect, with each constructor parameter set to a non-default value one at a time and all together (masks, nested composites, integrator settings, max_attempts, default_label), comparing type, every constructor parameter / documented attribute, and the re-serialised dictionary; every Monte Carlo driver with all settings non-default is round-tripped through to_dict and through the restart file after two real steps.",
         design_ref="4-C08",
-        note="Parameter alphabet is name-driven (reported: parameters without an alphabet entry). Callables and one-shot fields excepted. Base*/stub classes are not 'concrete'.",
+        note="Parameter alphabet is name-driven (reported: parameters without an alphabet entry). Callables and one-shot fields excepted. Base*/stub classes are not 'concrete'. Every object is rebuilt a second time from the same loaded dictionary (the dictionary must not be consumed or rewritten).",
         technique="exhaustive enumeration of (first-imported module) x (class) x (non-default and boundary parameter values, tunables set after construction) in fresh interpreters running the implementation's own serialization code",
     ),
     "C07": dict(
